@@ -140,7 +140,7 @@ impl C12 {
     fn mutants(&mut self, case: &Case, env: &Env) -> CaseOut {
         prepare_dir(env);
         let mut mt = Tape::new(&case.main);
-        let mut g = Gen { t: &mut mt, o: SynOpts { vars_heavy: false, children: false, respell_pct: 5, special_chars_pct: 20 }, counter: 0, rules: vec![], features: vec![] };
+        let mut g = Gen { t: &mut mt, o: SynOpts { vars_heavy: false, children: false, respell_pct: 5, special_chars_pct: 20 }, counter: 0, rules: vec![], rule_refs: vec![], features: vec![] };
         let m = g.manifest();
         let empty: Vec<u16> = vec![];
         let mut rt = Tape::new(case.ops.first().unwrap_or(&empty));
